@@ -403,14 +403,14 @@ def build(terms):
 
 # --- misc ----------------------------------------------------------------
 def kinds_of(e):
-    """sorted multiset of (class name, tensor name, bra_ket_sym) of the tensor
+    """sorted set of (class name, tensor name, bra_ket_sym) of the tensor
     atoms of a sympy expression"""
     e = getattr(e, "sympy", e)
     out = []
     for t in S(e).atoms(AntiSymmetricTensor, NonSymmetricTensor):
         bks = int(t.bra_ket_sym) if isinstance(t, AntiSymmetricTensor) else 0
-        out.append((type(t).__name__, t.name, bks, str(t)))
-    return sorted(out)
+        out.append((type(t).__name__, t.name, bks))
+    return sorted(set(out))
 
 
 def tree_kinds(terms):
